@@ -154,6 +154,8 @@ def run(ctx):
             kind, res = _json.loads(o)[:2]
         except (TypeError, ValueError):
             continue
+        if res == "-":
+            continue  # the scene itself (no operation)
         tgt = accepted if res == "ok" else refused
         tgt[f"{kind}:{res}"] = tgt.get(f"{kind}:{res}", 0) + 1
     ctx.cover(
